@@ -128,7 +128,11 @@ def run(ctx):
         n = rng.randint(1, 4) if rng.random() < 0.75 else rng.randint(5, 9)
         if big:
             n = rng.randint(170, 230)
-        small = (ctx.tier == "quick" or rng.random() < 0.8) and not big
+        force_share, force_edge0 = fi % 7 == 2, fi % 7 == 4
+        if force_share:
+            n = max(n, 3)
+        small = (rng.random() < (0.7 if ctx.tier == "quick" else 0.8)) and not big and not force_edge0
+        sampled = ctx.tier == "quick" and not small and not big
         origs = []
         used = set()
         for k in range(n):
@@ -136,7 +140,11 @@ def run(ctx):
                 d = D.rand_tx(rng) if rng.random() < 0.4 else D.rand_rx(rng)
                 if big and not (d["cls"] == "tx" and len(d["burst"]["bits"]) == 444):
                     continue                    # 453 octets per record: 170+ records exceed 64 KiB
-                if small and d["burst"]["has"] and len(d["burst"]["bits"]) > 148 and rng.random() < 0.85:
+                if force_share and not big and not (d["cls"] == "rx" and len(d["burst"]["bits"]) == 148):
+                    continue                    # several messages of one class and burst length: one buffer refilled
+                if force_edge0 and not big and k == 0 and not (d["cls"] == "rx" and d["ver"] == 0 and len(d["burst"]["bits"]) == 444):
+                    continue                    # a version-0 message whose modulation is only implied by the burst length
+                if small and d["burst"]["has"] and len(d["burst"]["bits"]) > 148 and rng.random() < 0.85 and not (force_edge0 and k == 0):
                     continue
                 if (d["fn"], d["tn"]) in used:
                     continue
@@ -149,8 +157,21 @@ def run(ctx):
         msgs = [D.mk_tx(d) if d["cls"] == "tx" else D.mk_rx(d) for d in origs]
         live = []          # reads on the writing object between appends: (messages appended so far, event)
         mode = rng.random() if not big else 0.5
+        if force_share and not big:
+            mode = 0.1
         if mode < 0.4:
+            # a writer that fills one buffer per burst length again and again (a receive loop does):
+            # what is stored is the content at the time of the append
+            share = force_share or rng.random() < 0.5
+            bufs = {}
             for m in msgs:
+                if share and m.burst is not None and len(m.burst) > 0:
+                    key = (type(m).__name__, len(m.burst))
+                    if key in bufs:
+                        bufs[key][:] = m.burst
+                        m.burst = bufs[key]
+                    else:
+                        bufs[key] = m.burst
                 ddf.f.flush()
                 starts.append(os.path.getsize(path))
                 ddf.append_msg(m)
@@ -259,11 +280,13 @@ def run(ctx):
             ev.insert(len(ev) - 1, e)         # before the "full" event: judged by the statement clauses first
             ctx.count()
         cuts = range(len(data) + 1)
-        if big:     # a few cuts only: the complete file, the last record cut, a cut behind the first 64 KiB
-            cuts = sorted({len(data), len(data) - 1, starts[-1] + 2, starts[-1], starts[150] + 7})
         boundary = set()
         for s, ln in zip(starts, lens):
             boundary.update([s, s + 1, s + 2, s + 3, s + 4, s + 3 + ln - 1, s + 3 + ln])
+        if big:     # a few cuts only: the complete file, the last record cut, a cut behind the first 64 KiB
+            cuts = sorted({len(data), len(data) - 1, starts[-1] + 2, starts[-1], starts[150] + 7})
+        elif sampled:   # quick tier, long bursts: the record boundaries and a sample of the other offsets
+            cuts = sorted({c for c in boundary if c <= len(data)} | {len(data)} | {rng.randrange(len(data) + 1) for _ in range(40)})
         p2 = os.path.join(tmp, "c%d.cap" % fi)
         for cut in cuts:
             with open(p2, "wb") as f:
